@@ -303,6 +303,10 @@ def run_save(recipe: dict, plan: dict | None, root: str, retry: bool = True) -> 
         if pre in ("both", "data_only"):
             with open(real_path + ".data", "wb") as f:
                 f.write(b"\xaa" * 30000)
+        if cfg.get("decoy_first"):
+            # another, unrelated model saved by the same process just before (module-level state between two saves of
+            # *different* models); no faults, its own directory, result not judged
+            _save_decoy(sandbox, torch_2_5)
         snap0 = snapshot(model)
         if not cfg.get("ext_preloaded", False):
             release_externals(model)
@@ -429,6 +433,27 @@ def run_save(recipe: dict, plan: dict | None, root: str, retry: bool = True) -> 
     finally:
         os.chdir(cwd)
         shutil.rmtree(sandbox, ignore_errors=True)
+
+
+def _save_decoy(sandbox: str, torch_2_5) -> None:
+    import numpy as np
+    import onnx_ir as ir
+
+    F = ir.DataType.FLOAT
+    x = ir.Value(name="x", shape=ir.Shape([2]), type=ir.TensorType(F))
+    vals = []
+    for i, n in enumerate((300, 80, 1000)):
+        t = ir.tensor(np.arange(n, dtype=np.float32) + i, name=f"w_{i}")
+        vals.append(ir.Value(name=f"w_{i}", shape=ir.Shape([n]), type=ir.TensorType(F), const_value=t))
+    node = ir.node("Identity", inputs=[x], name="decoy_id")
+    node.outputs[0].name = "y"
+    g = ir.Graph([x], [node.outputs[0]], nodes=[node], initializers=vals, opset_imports={"": 21}, name="decoy_graph")
+    d = os.path.join(sandbox, "decoy")
+    os.makedirs(d, exist_ok=True)
+    try:
+        torch_2_5.save_model_with_external_data(ir.Model(g, ir_version=10), os.path.join(d, "model.onnx"))
+    except Exception:  # noqa: BLE001 - the decoy's own outcome is not the subject
+        pass
 
 
 def _reset_tqdm():
